@@ -766,6 +766,74 @@ for _n in (1, 2):
 
 
 # ----------------------------------------------------------------------------------------------
+# Data.__init__: -latrange / -lonrange / -elevrange / -l / -lx resolved to station ids, for ALL coordinate values
+# (deductive in the coordinates and range end points incl. NaN and infinite coordinates; the number of stations is fixed)
+# ----------------------------------------------------------------------------------------------
+L_MENU = [None, [0.0], [1.0, 2.0], [2.0, 0.0, 7.0]]
+LX_MENU = [None, [1.0], [0.0, 2.0]]
+
+
+def _location_ranges(n_stations):
+    import verif.location
+
+    def setup(G):
+        b = Bag(lat=[], lon=[], elev=[])
+        for j in range(n_stations):
+            b.lat.append(G.num("lat%d" % j, kinds=ALL_KINDS, numpy=False, grid=[10.0, 50.0, 60.0, 95.0, float("nan")]))
+            b.lon.append(G.num("lon%d" % j, kinds=ALL_KINDS, numpy=False, grid=[-170.0, 10.0, 200.0, 350.0, float("nan")]))
+            b.elev.append(G.num("elev%d" % j, kinds=ALL_KINDS, numpy=False, grid=[0.0, 100.0, 250.0, -5.0, float("nan")]))
+        for nm, grid in (("lat", [10.0, 50.0, 60.0, 0.0]), ("lon", [10.0, 200.0, 350.0, -180.0]), ("elev", [0.0, 100.0, 250.0, 1000.0])):
+            b["use_" + nm] = G.boolean("use_" + nm)
+            b[nm + "_lo"] = G.num(nm + "_lo", numpy=False, grid=grid)
+            b[nm + "_hi"] = G.num(nm + "_hi", numpy=False, grid=grid)
+        b.l = G.choice("l", L_MENU)
+        b.lx = G.choice("lx", LX_MENU)
+        return b
+
+    def call(inp):
+        si = StubInput("in0", _np.zeros([1, 1, n_stations]), _np.zeros([1, 1, n_stations]))
+        si.times = _np.array([0.0])
+        si.leadtimes = _np.array([0.0])
+        si.locations = [verif.location.Location(float(j), inp.lat[j], inp.lon[j], inp.elev[j]) for j in range(n_stations)]
+        kw = {}
+        if inp.l is not None: kw["locations"] = list(inp.l)
+        if inp.lx is not None: kw["locations_x"] = list(inp.lx)
+        if inp.use_lat: kw["lat_range"] = [inp.lat_lo, inp.lat_hi]
+        if inp.use_lon: kw["lon_range"] = [inp.lon_lo, inp.lon_hi]
+        if inp.use_elev: kw["elev_range"] = [inp.elev_lo, inp.elev_hi]
+        return verif.data.Data([si], **kw)
+
+    def selected(S, inp, j):
+        """C03, from the property statement: the station satisfies every subsetting option GIVEN (ranges inclusive)"""
+        conds = [S.implies(inp["use_" + nm], S.and_(inp[nm + "_lo"] <= inp[nm][j], inp[nm][j] <= inp[nm + "_hi"])) for nm in ("lat", "lon", "elev")]
+        ok = S.and_(*conds)
+        if inp.l is not None and float(j) not in inp.l:
+            return S.and_(ok, False)
+        if inp.lx is not None and float(j) in inp.lx:
+            return S.and_(ok, False)
+        return ok
+
+    def post(S, inp, out):
+        got = [float(loc.id) for loc in out.locations]
+        goals = [("station-%d-verified-iff-it-satisfies-every-given-option" % j, S.iff(float(j) in got, selected(S, inp, j))) for j in range(n_stations)]
+        goals.append(("ascending-distinct", got == sorted(set(got))))
+        goals.append(("index-list-matches", [int(i) for i in out._locationsI[0]] == [int(g) for g in got]))
+        return goals
+
+    def raises(S, inp, outcome):
+        return [("error-exit-only-when-no-station-satisfies-the-options",
+                 S.and_(outcome.kind == "abort", *[S.not_(selected(S, inp, j)) for j in range(n_stations)]))]
+    return setup, call, post, raises
+
+
+for _n in (1, 2):
+    s, c, p, r = _location_ranges(_n)
+    register(Obligation("verif.data.Data.__init__#POST:location-options[%d-station%s]" % (_n, "s" if _n > 1 else ""), ("C03",), s, c, p, raises=r, modules=MOD,
+                        functions=["verif.data.Data.__init__"],
+                        doc="for all real / NaN / infinite station coordinates and all range end points; station count and the -l/-lx lists are fixed"))
+
+
+# ----------------------------------------------------------------------------------------------
 # thresholds / quantiles / fields common to all inputs (used by the driver's defaults and by get_p requests)
 # ----------------------------------------------------------------------------------------------
 def _common_levels():
